@@ -160,6 +160,12 @@ RETCODE adfMountHd ( struct AdfDevice * const dev )
     dev->nVol=0;
     vList = NULL;
     while( next!=-1 ) {
+        /* the RDB area holds fewer blocks than the device: stops on a cyclic list */
+        if ( (uint32_t) dev->nVol > dev->size / 512 ) {
+            adfFreeTmpVolList(listRoot);
+            (*adfEnv.eFct)("adfMountHd : partition list too long (cycle?)");
+            return RC_ERROR;
+        }
         rc = adfReadPARTblock ( dev, next, &part );
         if ( rc != RC_OK ) {
             adfFreeTmpVolList(listRoot);
@@ -225,7 +231,8 @@ RETCODE adfMountHd ( struct AdfDevice * const dev )
     freeList(listRoot);
 
     next = rdsk.fileSysHdrList;
-    while( next!=-1 ) {
+    uint32_t steps = dev->size / 512;
+    while( next!=-1 && steps-- > 0 ) {
         rc = adfReadFSHDblock ( dev, next, &fshd ); 
         if ( rc != RC_OK ) {
             for ( i = 0 ; i < dev->nVol ; i++ )
@@ -238,11 +245,12 @@ RETCODE adfMountHd ( struct AdfDevice * const dev )
     }
 
     next = fshd.segListBlock;
-    while( next!=-1 ) {
+    steps = dev->size / 512;
+    while( next!=-1 && steps-- > 0 ) {
         rc = adfReadLSEGblock ( dev, next, &lseg ); 
         if ( rc != RC_OK ) {
             (*adfEnv.wFct)("adfMount : adfReadLSEGblock");
-            // abort here ?
+            break;
         }
         next = lseg.next;
     }
